@@ -55,7 +55,7 @@ class C01(DiffProperty):
     def split(self, case):
         t = case.split()
         hdr, rest = t[:1], t[1:]
-        ar = {"call": 2, "term": 1, "pushall": 2, "termall": 1, "msg": 0, "py": 2, "apush": 1, "aterm": 0}
+        ar = {"call": 2, "term": 1, "pushall": 2, "termall": 1, "msg": 0, "py": 2, "apush": 1, "aterm": 0, "del": 0}
         ops = []
         i = 0
         while i < len(rest):
@@ -176,6 +176,25 @@ class C01(DiffProperty):
                 for part in self.gen_splits(rng, m):
                     ops += ["pushall", rng.choice(scheds), hx(part)]
                 ops += ["termall", rng.choice(scheds)]
+            ops += ["msg"]
+            cases.append(" ".join([str(v)] + ops))
+        # DELETION of the message in progress (a source of length 1 without data; what mpt_stream_reply rolls back with):
+        # finished messages first, then a message in pieces (closed and open blocks: the count in _ctx is compared through
+        # the position the request returns), the deletion, and a further message behind it
+        nd = 500 if tier == "quick" else 12000
+        for i in range(nd):
+            v = i % 4
+            ops = []
+            for _ in range(rng.choice([0, 1, 2])):
+                ops += ["pushall", "64", hx(self.gen_msg(rng, v) or [0x41]), "termall", "64"]
+            m = self.gen_msg(rng, v) or [0x42, 0x00, 0x43]
+            for part in self.gen_splits(rng, m):
+                ops += ["pushall", rng.choice(scheds), hx(part)]
+                if rng.random() < 0.2:
+                    ops += ["del"]          # in the middle: what follows starts a new message
+            ops += ["del"] + (["del"] if rng.random() < 0.2 else [])
+            if rng.random() < 0.8:
+                ops += ["pushall", "64", hx(self.gen_msg(rng, v) or [0x44]), "termall", "3,1"]
             ops += ["msg"]
             cases.append(" ".join([str(v)] + ops))
         # the library's own push loop: mpt_array_push on an encode_array (growth by detach, partial consumption,
